@@ -105,7 +105,16 @@ type unmarshalTextDecoder struct {
 
 func (d *unmarshalTextDecoder) FromDom(vp unsafe.Pointer, node Node, ctx *context) error {
 	if node.IsNull() {
-		*(*unsafe.Pointer)(vp) = nil
+		/* null never reaches UnmarshalText: nil-able values are cleared, others are left unchanged */
+		vt := d.typ.Pack()
+		if vt.Kind() == reflect.Ptr {
+			/* pointer receiver: vp addresses a value of the element type */
+			vt = vt.Elem()
+		}
+		switch vt.Kind() {
+		case reflect.Ptr, reflect.Map, reflect.Slice, reflect.Interface:
+			reflect.NewAt(vt, vp).Elem().Set(reflect.Zero(vt))
+		}
 		return nil
 	}
 
